@@ -334,6 +334,18 @@ class Session:
         return None
 
     def _call(self, fn, *a, **kw):
+        # every third API call hands its positional arguments over by keyword (the documented parameter names)
+        self._ncalls = getattr(self, "_ncalls", 0) + 1
+        if a and self._ncalls % 3 == 0:
+            try:
+                import inspect
+
+                params = list(inspect.signature(fn).parameters.values())
+                if len(params) >= len(a) and all(p_.kind == p_.POSITIONAL_OR_KEYWORD for p_ in params[: len(a)]) and not any(p_.name in kw for p_ in params[: len(a)]):
+                    kw = dict({p_.name: v for p_, v in zip(params, a)}, **kw)
+                    a = ()
+            except (TypeError, ValueError):
+                pass
         try:
             return fn(*a, **kw)
         except Exception as e:  # noqa: BLE001 - everything the API raises is an observation
@@ -370,6 +382,9 @@ class Session:
         elif kind == "insert_multiple":
             t0 = to_us(datetime.now(timezone.utc))
             ps = [real_point(s) for s in op["ps"]]
+            if op.get("alias_last_to_first") and len(ps) > 1:
+                # one Point object given twice in a batch (the last spec repeats the first): two stored points
+                ps[-1] = ps[0]
             kw = {}
             if op.get("compact") and not via_h:  # handles offer no compact option
                 kw["compact_key_prefixes"] = True
